@@ -195,7 +195,7 @@ def c05(tier, seed, work):
 
 def list_consts(**kw):
     c = dict(Alphabet={45, 47, 97, 98}, MaxLen=3, MaxSet=2, PrefixLen=2, Delims={0, 47, 45, 97}, FsDomain=False,
-             CfgName="plain", Shard=0, Shards=1, Markers=False, EmptySegs=False)
+             CfgName="plain", Shard=0, Shards=1, Markers=False, EmptySegs=False, MultiDead=False)
     c.update(kw)
     return c
 
@@ -215,6 +215,12 @@ def c03(tier, seed, work):
     tour_stage(rep, work, "fs", "MC_List", list_consts(MaxSet=n, FsDomain=True, Delims={0, 47}),
                ["multimem", "multios"], invariants=["EmitInv"], **common)
     tour_stage(rep, work, "single", "MC_List", list_consts(MaxSet=n, FsDomain=True, Delims={0, 47}, CfgName="single"),
+               ["singlemem", "singleos"], invariants=["EmitInv"], **common)
+    # the keys written and deleted before the live ones arrive go in one multi-object delete (a batch that empties a directory)
+    tour_stage(rep, work, "fs-after-multi-delete", "MC_List", list_consts(MaxSet=2, FsDomain=True, Delims={0, 47}, MultiDead=True),
+               ["multimem", "multios", "mem"], invariants=["EmitInv"], **common)
+    tour_stage(rep, work, "single-after-multi-delete", "MC_List",
+               list_consts(MaxSet=2, FsDomain=True, Delims={0, 47}, CfgName="single", MultiDead=True),
                ["singlemem", "singleos"], invariants=["EmitInv"], **common)
     # the Go API path: Backend.ListBucket called directly
     tour_stage(rep, work, "go-api-kv", "MC_List", list_consts(MaxSet=n), ["mem", "bolt"], invariants=["EmitInv"], addr="api", **common)
@@ -362,7 +368,7 @@ def c06(tier, seed, work):
     tour_stage(rep, work, "mp-after-refusal", "MC_Store",
                store_consts(Buckets={"bkt1"}, KeySetName="a", Bodies={"x1"}, PartBodies={"p1", "p2"}, MaxUploads=1, MaxList=2,
                             Ghosts=False, AfterRefusal=True,
-                            OpNames={"CreateBucket", "Initiate", "UploadPart", "Complete", "Abort", "GetObject"}),
+                            OpNames={"CreateBucket", "Initiate", "UploadPart", "UploadPartRefused", "Complete", "Abort", "GetObject"}),
                ["mem", "multimem"], small=True, memtrace=thorough, **st)
     if not thorough:
         # (quick tier: the traced variant with one part body)
@@ -512,7 +518,9 @@ def c16(tier, seed, work):
     # virtual-host addressing (and with extra slashes), expecting exactly the path-style replies
     modes = [("hostbucket", "host:!s3.test"), ("bases=s3.test+s3.alt:9000", "host:s3.alt:9000"),
              ("bases=s3.test", "host:s3.test"), ("", "slashes"), ("bases=s3.test", "slashes"),
-             ("bases=test+s3.test", "host:!s3.test")]
+             ("bases=test+s3.test", "host:!s3.test"),
+             # three bases, consecutive requests through them in turn, the last-configured one first
+             ("bases=s3.test+s3.alt:9000+s5.test", "host:s5.test,s3.test,s3.alt:9000")]
     # keys with '+', '=', '?', '#', blanks and non-ASCII characters, the request line spelled with a non-canonical
     # escaping (net/http then fills URL.RawPath): virtual-host and path style must address the same objects
     for opts, addr in (("bases=s3.test", "host:s3.test+rawpath"), ("hostbucket", "host:!s3.test+rawpath"), ("", "+rawpath")):
@@ -778,6 +786,16 @@ def c10(tier, seed, work):
                    ALL4, small=True, **st)
     tour_stage(rep, work, "keys-single", "MC_Store",
                store_consts(KeySetName="hostile2", Bodies={"x1"}, CfgName="single", OpNames=ops - {"CreateBucket"}, Ghosts=False),
+               ["singlemem", "singleos"], small=True, **st)
+    # keys that differ only in '/', '_' and '\\' (the fs backends flatten them into one metadata file name, kept apart by
+    # a hash of the key): each keeps its own body, ETag and metadata through writes and deletes of the others
+    tour_stage(rep, work, "keys-flattening-to-one-name", "MC_Store",
+               store_consts(Buckets={"bkt1"}, KeySetName="coll", Bodies={"x1", "x2"}, Ghosts=False,
+                            OpNames={"CreateBucket", "PutMeta", "PutMetaB", "GetObject", "HeadObject", "DeleteObject", "ListObjects"}),
+               ALL4, small=True, **st)
+    tour_stage(rep, work, "keys-flattening-to-one-name-single", "MC_Store",
+               store_consts(Buckets={"bkt1"}, KeySetName="coll", Bodies={"x1", "x2"}, CfgName="single", Ghosts=False,
+                            OpNames={"PutMeta", "PutMetaB", "GetObject", "HeadObject", "DeleteObject", "ListObjects"}),
                ["singlemem", "singleos"], small=True, **st)
     # the names the fs backends give their own scratch files (upload temp file, mtime probe) are legal keys
     ops4 = {"CreateBucket", "PutObject", "GetObject", "DeleteObject", "ListObjects", "DeleteBucket"}
